@@ -10,6 +10,7 @@
   `specAt` by the correspondence run only (level: partial, see MANIFEST).
 -/
 import ICal.Lemmas.Tz
+import ICal.Lemmas.TzMore
 namespace ICal.C12
 open ICal.Tz
 
@@ -275,6 +276,172 @@ theorem cache_own_def_full_false : ¬ cache_own_def_full := by
   have := h P0 [] [.use XA, .vtz XA 1, .use XA]
   rw [cache_position_witness.2] at this
   exact Bool.noConfusion this
+
+/-! ## clause by clause: rounding, `set(transtimes)`, the sort, the DST amount, names, re-parsing -/
+
+/-- `_extract_offsets` rounds TZOFFSETFROM/TZOFFSETTO to the minute: a whole-minute offset (the
+    domain of the property) is kept, any other moves by at most 30 s (half a minute goes up) and the
+    result is a whole minute. -/
+theorem offsets_rounded_to_minute (x : Int) :
+    (x % 60 = 0 → roundMin x = x) ∧ roundMin x % 60 = 0 ∧ x - 30 < roundMin x ∧ roundMin x ≤ x + 30 :=
+  ⟨roundMin_id, roundMin_near x⟩
+
+example : roundMin 3600 = 3600 ∧ roundMin 3630 = 3660 ∧ roundMin 3629 = 3600 ∧ roundMin (-3630) = -3600 := by decide
+
+/-- `transitions.sort()`: the list `get_transitions` works on is a permutation of the extracted
+    tuples, ascending in the tuple order (local time, then from, to, name), and it is the only such
+    list — any correct sort gives it. -/
+theorem sort_is_the_sorted_permutation (obs : List Obs) :
+    (sortedTrs obs).Perm (obs.flatMap extractOffsets) ∧ (sortedTrs obs).Pairwise TrLe ∧
+    ∀ l : List Tr, l.Perm (obs.flatMap extractOffsets) → l.Pairwise TrLe → l = sortedTrs obs := by
+  refine ⟨sortTr_perm _, sortTr_sorted _, ?_⟩
+  intro l hp hs
+  exact List.Perm.eq_of_pairwise (le := TrLe) (fun a b _ _ h1 h2 => trLe_antisymm h1 h2) hs (sortTr_sorted _)
+    (hp.trans (sortTr_perm _).symm)
+
+/-- `set(transtimes)`: the whole result of `get_transitions` depends only on the SET of onsets of
+    each observance — listing them in another order or several times (an RDATE repeated, DTSTART
+    also among the RDATEs) changes nothing. -/
+theorem onset_set_semantics (f : List Int → List Int) (hf : ∀ l x, x ∈ f l ↔ x ∈ l) (obs : List Obs) :
+    getTransitions (obs.map fun o => { o with onsets := f o.onsets }) = getTransitions obs := by
+  unfold getTransitions
+  rw [sortedTrs_onset_sets f hf obs]
+  have : dstOf (obs.map fun o => { o with onsets := f o.onsets }) = dstOf obs := by
+    funext nm; exact dstOf_onset_sets f obs nm
+  rw [this]
+
+example : ∀ (l : List Int) x, x ∈ (l ++ l.reverse) ↔ x ∈ l := by intro l x; simp
+
+/-- Under `WellSeparated` sorting by local time IS sorting by instant: the UTC column of the table
+    is ascending and a permutation of the onset instants `local − TZOFFSETFROM` of all tuples. -/
+theorem local_sort_is_utc_sort (obs : List Obs) (ts : List Ent) (hg : getTransitions obs = some ts)
+    (hw : WellSeparated obs) :
+    (ts.map Ent.utc).Pairwise (· ≤ ·) ∧
+    (ts.map Ent.utc).Perm ((obs.flatMap extractOffsets).map fun c => c.loc - c.osfrom) := by
+  refine ⟨local_sort_ok obs ts hg hw, ?_⟩
+  unfold getTransitions at hg
+  obtain ⟨hmap, _⟩ := infoGo_spec (dstOf obs) (sortedTrs obs) [] ts hg
+  have e : ts.map Ent.utc = (sortedTrs obs).map (fun c => c.loc - c.osfrom) := hmap
+  rw [e]
+  exact (sortTr_perm _).map _
+
+/-- The AssertionError of `get_transitions`, exactly: it is raised iff there is at least one
+    transition and the `dst` dict marks the name of every transition as DAYLIGHT. -/
+theorem assertion_error_iff (obs : List Obs) :
+    getTransitions obs = none ↔ sortedTrs obs ≠ [] ∧ ∀ c ∈ sortedTrs obs, dstOf obs c.name = true := by
+  unfold getTransitions
+  rw [infoGo_none]
+  simp
+
+/-- ... and in terms of the definition, when no TZNAME is shared by a STANDARD and a DAYLIGHT
+    observance: iff some observance has an onset and every observance that has one is DAYLIGHT
+    (finding `daylight-only-definition`; with a shared name see `tzname-shared-by-standard-and-daylight`). -/
+theorem assertion_error_iff_daylight_only (obs : List Obs) (hn : NamesConsistent obs) :
+    getTransitions obs = none ↔
+      (∃ o ∈ obs, o.onsets ≠ []) ∧ ∀ o ∈ obs, o.onsets ≠ [] → o.isDst = true := by
+  rw [assertion_error_iff]
+  constructor
+  · rintro ⟨hne, hall⟩
+    constructor
+    · obtain ⟨c, hc⟩ := List.exists_mem_of_ne_nil _ hne
+      obtain ⟨o, ho, l, hl, _⟩ := mem_sortedTrs.mp hc
+      exact ⟨o, ho, List.ne_nil_of_mem hl⟩
+    · intro o ho hons
+      obtain ⟨l, hl⟩ := List.exists_mem_of_ne_nil _ hons
+      have := hall _ (mem_sortedTrs.mpr ⟨o, ho, l, hl, rfl⟩)
+      simpa [dstOf_eq hn ho] using this
+  · rintro ⟨⟨o, ho, hons⟩, hall⟩
+    constructor
+    · obtain ⟨l, hl⟩ := List.exists_mem_of_ne_nil _ hons
+      exact List.ne_nil_of_mem (mem_sortedTrs.mpr ⟨o, ho, l, hl, rfl⟩)
+    · intro c hc
+      obtain ⟨o', ho', l, hl, rfl⟩ := mem_sortedTrs.mp hc
+      simp only
+      rw [dstOf_eq hn ho']
+      exact hall o' ho' (List.ne_nil_of_mem hl)
+
+example : getTransitions [⟨true, ['S'], 3600, 7200, [0]⟩] = none ∧
+    NamesConsistent [⟨true, ['S'], 3600, 7200, [0]⟩] := by decide
+
+/-- The DST amount of every row, by cases. Let the sorted tuple list be `pre ++ cur :: post` and
+    `dst` the name-keyed dict. The row at that position has `cur`'s instant, TZOFFSETTO and name, and
+    * STANDARD `cur`: amount 0;
+    * DAYLIGHT `cur`, nearest earlier STANDARD tuple `x` (`pre = a ++ x :: b`, `b` all DAYLIGHT) with a
+      different TZOFFSETTO: `cur.osto − x.osto`;
+    * DAYLIGHT `cur`, `x` has the SAME TZOFFSETTO, or there is no earlier STANDARD tuple: the nearest
+      later STANDARD tuple `y` decides, `cur.osto − y.osto` (`timedelta(0)` is falsy: searched again);
+    * DAYLIGHT `cur`, `x` has the same TZOFFSETTO and no STANDARD tuple follows: 0. -/
+theorem dst_amount_spec (obs : List Obs) (ts : List Ent) (hg : getTransitions obs = some ts)
+    (pre post : List Tr) (cur : Tr) (hsplit : sortedTrs obs = pre ++ cur :: post) :
+    ∃ e, ts[pre.length]? = some e ∧ e.utc = cur.loc - cur.osfrom ∧ e.off = cur.osto ∧ e.name = cur.name ∧
+    (dstOf obs cur.name = false → e.dst = 0) ∧
+    (dstOf obs cur.name = true → ∀ a x b, pre = a ++ x :: b → (∀ y ∈ b, dstOf obs y.name = true) →
+      dstOf obs x.name = false →
+      (cur.osto ≠ x.osto → e.dst = cur.osto - x.osto) ∧
+      (cur.osto = x.osto →
+        (∀ a' y b', post = a' ++ y :: b' → (∀ z ∈ a', dstOf obs z.name = true) → dstOf obs y.name = false →
+          e.dst = cur.osto - y.osto) ∧
+        ((∀ z ∈ post, dstOf obs z.name = true) → e.dst = 0))) ∧
+    (dstOf obs cur.name = true → (∀ y ∈ pre, dstOf obs y.name = true) →
+      ∀ a' y b', post = a' ++ y :: b' → (∀ z ∈ a', dstOf obs z.name = true) → dstOf obs y.name = false →
+        e.dst = cur.osto - y.osto) := by
+  unfold getTransitions at hg
+  rw [hsplit] at hg
+  obtain ⟨d, hd, hnth⟩ := infoGo_nth pre [] cur post ts hg
+  rw [List.append_nil] at hd
+  obtain ⟨c1, c2, c3⟩ := dstOffset_cases hd
+  exact ⟨_, hnth, rfl, rfl, rfl, c1, c2, c3⟩
+
+/-- two winters and two summers: the hypotheses of `dst_amount_spec` at the first summer onset -/
+def cet4 : List Obs :=
+  [⟨false, ['C', 'E', 'T'], 7200, 3600, [941338800, 972788400]⟩,
+   ⟨true, ['C', 'E', 'S', 'T'], 3600, 7200, [954036000, 985485600]⟩]
+
+example : (getTransitions cet4).isSome = true ∧ sortedTrs cet4 = [⟨941338800, 7200, 3600, ['C', 'E', 'T']⟩] ++
+    ⟨954036000, 3600, 7200, ['C', 'E', 'S', 'T']⟩ ::
+      [⟨972788400, 7200, 3600, ['C', 'E', 'T']⟩, ⟨985485600, 3600, 7200, ['C', 'E', 'S', 'T']⟩] := by decide
+
+/-- The name loop: every component keeps its fields, an explicit TZNAME verbatim; the names
+    generated for components without TZNAME are pairwise distinct (and distinct from the names
+    `taken` by earlier generated ones); when the candidates `zone_dtstart_from_to` are already
+    pairwise distinct they are used as they are. Explicit names never enter the `tznames` set. -/
+theorem names_resolved (os : List ObsIn) (taken : List Str) :
+    (resolveNames os taken).length = os.length ∧
+    (∀ p ∈ os.zip (resolveNames os taken), Resolved p.1 p.2) ∧
+    (genNames os (resolveNames os taken)).Nodup ∧
+    (∀ n ∈ genNames os (resolveNames os taken), n ∉ taken) ∧
+    ((autosOf os).Nodup → (∀ n ∈ autosOf os, n ∉ taken) → genNames os (resolveNames os taken) = autosOf os) :=
+  ⟨resolveNames_length os taken, resolveNames_fields os taken, (genNames_fresh os taken).1,
+    (genNames_fresh os taken).2, genNames_eq_autos os taken⟩
+
+/-- two name-less components with the same candidate: the second gets `_1` -/
+example : (resolveNames [⟨false, none, ['Z'], 0, 0, [0]⟩, ⟨true, some ['D'], [], 0, 3600, [5]⟩,
+    ⟨false, none, ['Z'], 3600, 0, [9]⟩] []).map (·.name) = [['Z'], ['D'], ['Z', '_', '1']] := by decide
+
+/-- Parsing a calendar again: the cache after the second parse is the cache after the first
+    (`cacheAfter` is idempotent), so from the second parse on the answers never change. -/
+theorem cache_reparse_idempotent {δ : Type} (P : Prov) (c : Cache δ) (cal : List (Item δ)) :
+    cacheAfter P (cacheAfter P c cal) cal = cacheAfter P c cal :=
+  cacheAfter_noop P cal _ (fun x d h => cacheAfter_settles P cal c x d h)
+
+/-- From the second parse of the same calendar on, every date-time is answered from one fixed
+    cache, whatever the position of the VTIMEZONEs: the `n` further parses all give
+    `useTz` of the settled cache for each TZID use, in file order. -/
+theorem reparse_position_independent {δ : Type} (P : Prov) (c : Cache δ) (cal : List (Item δ)) (n : Nat) :
+    parseAll P (cacheAfter P c cal) (List.replicate n cal) =
+      List.replicate n ((usesOf cal).map (useTz P (cacheAfter P c cal))) := by
+  induction n with
+  | zero => rfl
+  | succ n ih =>
+    simp only [List.replicate_succ, parseAll]
+    rw [cache_reparse_idempotent, ih,
+      parseCal_settled P cal _ (fun x d h => cacheAfter_settles P cal c x d h)]
+
+/-- ... while the FIRST parse may differ from all later ones (finding `tz-definition-after-use`):
+    the date-time before its VTIMEZONE is naive the first time and zoned every later time. -/
+theorem reparse_differs_witness :
+    parseAll P0 ([] : Cache Nat) [[.use XA, .vtz XA 1], [.use XA, .vtz XA 1], [.use XA, .vtz XA 1]] =
+      [[.naive], [.custom 1], [.custom 1]] := by decide
 
 /-! Non-vacuity: a two-observance DST definition satisfies every hypothesis of `rfc_onset_partial`,
     and a calendar with the VTIMEZONE first satisfies those of `cache_own_def_partial`. -/
